@@ -179,3 +179,7 @@ pub(crate) fn get_missing_files<S>(
     let (hot_only, hot_only_size) = retain(hot_files);
     Ok((cold_only, cold_only_size, hot_only, hot_only_size))
 }
+
+#[cfg(kani)]
+#[path = "/verif/harness/commands_repair_hotcold.rs"]
+pub(crate) mod verif_harness;
